@@ -2,7 +2,7 @@
    examples (none for an empty input), and tagging changes only the grouping. *)
 From Coq Require Import ZArith List Bool.
 From Tdda Require Import Base.Sexp Base.Str Rexpy.Chars Rexpy.Pipeline Rexpy.PipelineProofs Rexpy.Sem
-     Rexpy.OracleCheck Rexpy.RefineProofs Rexpy.BatchProofs.
+     Rexpy.OracleCheck Rexpy.RefineProofs Rexpy.BatchProofs Rexpy.Regex Rexpy.RegexProofs.
 Import ListNotations.
 Open Scope Z_scope.
 
@@ -44,3 +44,14 @@ Print Assumptions C13_each_matches_some.
 
 Example C13_capture_group_example : capture_group [40; 97; 41] = [40; 97; 41] /\ capture_group [97] = [40; 97; 41].
 Proof. split; reflexivity. Qed.
+
+(* at the level of the TEXT (Rexpy/Regex.v): every expression of one batch extraction compiles (parses in the modelled
+   fragment of the syntax) and matches one of the working examples *)
+Theorem C13_text_each_matches_some : forall ct o stripped gt ex merged rex,
+  batch_extract ct o [] stripped gt ex = Ok (merged, rex) ->
+  table_ok ct -> 1 <= z_max_strings_in_group o ->
+  batch_oracle_okb ct o [] stripped gt ex = true ->
+  batch_renderable ct o stripped gt ex = true ->
+  forall text, In text rex -> exists s, In s (ex_strings ex) /\ re_model_match ct text s = Some true.
+Proof. exact batch_text_each_matches. Qed.
+Print Assumptions C13_text_each_matches_some.
